@@ -141,6 +141,16 @@ class Stack(object):
                 raise ValueError('cannot encode')
             fr = [list(f) for f in c.normalized_rlc]
             self.frames[nm] = fr
+        # 'T': key A pressed AGAIN - the frames a remote sends for the second press (toggle protocols flip their toggle bit): the
+        # second encode on one encoder instance
+        with engine.class_guard(self.p['cls']):
+            enc = self.p['cls']()
+            try:
+                enc.encode(**keyA, repeat_count=1)
+                c2 = enc.encode(**keyA, repeat_count=1)
+                self.frames['T'] = [list(f) for f in c2.normalized_rlc]
+            except Exception:  # noqa
+                self.frames['T'] = self.frames['A']
         vlib.drain_workers()
         CLOCK[0] = 1000000
         self.down = {}
@@ -210,6 +220,8 @@ class Stack(object):
             self.frame('A', 1)
         elif op == 'B':
             self.frame('B', 0)
+        elif op == 'T':
+            self.frame('T', 0)
         elif op == 'adv<':
             CLOCK[0] += 30000
         elif op == 'adv>':
@@ -281,10 +293,11 @@ def run(ctx):
         # quick: a fifth of the words of length 5; thorough: every word of length 5 and a fifth of those of length 6
         allw = itertools.product(alphabet, repeat=5) if ctx.tier == 'quick' else \
             itertools.chain(itertools.product(alphabet, repeat=5), itertools.product(alphabet, repeat=6))
-        for word in allw:
+        again = [w for w in itertools.product(['A', 'T', 'a', 'adv<', 'adv>', 'poll', 'run'], repeat=4) if w[0] == 'A' and 'T' in w]
+        for word in itertools.chain(allw, again):
             if word[0] not in ('A', 'B'):
                 continue            # words are taken modulo leading idle events
-            if (ctx.tier == 'quick' or len(word) == 6) and ctx.rng.random() > 0.2:
+            if 'T' not in word and (ctx.tier == 'quick' or len(word) == 6) and ctx.rng.random() > 0.2:
                 continue
             try:
                 st = run_word(pname, keyA, keyB, word)
